@@ -325,5 +325,31 @@ func (c *Ctx) checkBatchExecutedAs(rule string, reach map[*ssa.Function]bool) {
 			}
 		}
 		r.Check(ok, rule, fname(f), p.Pos(f.Pos()), "the index deleted is the looked-up executed batch's own store index", "the batch-executed handler does not delete exactly the store index of the batch it looked up")
+		// the executed batch is looked up under the token id the report names, as reported: batches are filed
+		// under the token id as it is written in the token table, so a re-spelt id (checksummed, lower-cased)
+		// finds nothing and the executed batch stays pending
+		for _, e := range p.In[f] {
+			if !reach[e.Caller] {
+				continue
+			}
+			for _, a := range e.Site.Common().Args {
+				if b, isB := a.Type().Underlying().(*types.Basic); !isB || b.Info()&types.IsString == 0 {
+					continue
+				}
+				l := p.Leaves(a, ana.PVOpt{})
+				if !l.HasField("BatchExecutedEvent.ExternalCoinId") {
+					continue
+				}
+				lossy := ""
+				for _, op := range l.OpList() {
+					switch op {
+					case "HexToAddress", "Address.Hex", "ToLower", "ToUpper", "TrimSpace", "TrimPrefix", "HexToHash", "Address.String", "BytesToAddress", "Hex2Bytes", "FromHex":
+						lossy = op
+					}
+				}
+				r.Check(lossy == "", rule, "reported-token:"+fname(e.Caller), c.pos(e.Site.(ssa.Instruction)), "the executed batch is looked up under the reported token id, unchanged",
+					"the token id of an observed batch execution is re-spelt ("+lossy+") before the batch is looked up: batches are filed under the id as written in the token table, so for ids the step changes the executed batch is not found, stays pending and is paid again after its timeout")
+			}
+		}
 	}
 }
